@@ -726,3 +726,261 @@ Proof.
         -- left; right; auto.
         -- right. repeat split; auto. intro X. apply D. apply BE; assumption.
 Qed.
+
+(** * The invariant holds in every reachable state *)
+Lemma res_true_dec (r : res) : {r = RTrue} + {r <> RTrue}.
+Proof. destruct r; [left; reflexivity|right; discriminate|right; discriminate]. Qed.
+
+Lemma inv_same_tokens_deleg s s' : s_tokens s' = s_tokens s -> s_deleg s' = s_deleg s -> Inv s -> Inv s'.
+Proof.
+  intros HT HD [I1 I2]. split.
+  - intros c id ts H. rewrite HT in H. apply (I1 _ _ _ H).
+  - intros c id ds H. rewrite HD in H. destruct (I2 _ _ _ H) as [ND F]. split; [exact ND|].
+    rewrite Forall_forall in *. intros d Hd. destruct (F d Hd) as [A [B [C D]]]. repeat split; auto.
+    unfold holds_direct in *. rewrite HT. exact D.
+Qed.
+
+Lemma inv_set_deleg s c id l : Inv s -> delegs_ok s c l -> Inv (set_deleg s (c, id) l).
+Proof.
+  intros [I1 I2] H. split.
+  - intros c' id' ts E. simpl in E. apply (I1 _ _ _ E).
+  - intros c' id' ds E. simpl in E. unfold fput in E.
+    destruct (key_eqb (c', id') (c, id)) eqn:K.
+    + apply key_eqb_eq in K. inversion K; subst. inversion E; subst. exact H.
+    + apply (I2 _ _ _ E).
+Qed.
+
+Lemma init_state_inv : Inv init_state.
+Proof. split; intros c id x H; discriminate. Qed.
+
+Section StepInv.
+Variable valid_id : bytes -> bool.
+Notation stp := (step valid_id).
+
+Lemma step_refused_same s e : fst (stp s e) <> RTrue -> snd (stp s e) = s.
+Proof.
+  unfold step. destruct (ev_op e); simpl; try reflexivity;
+    unfold init_admin, transfer, assign_funcs, assign_ids, delegate, withdraw;
+    repeat match goal with
+           | |- context [match ?x with _ => _ end] => destruct x eqn:?
+           end; simpl; intro H; try reflexivity; exfalso; apply H; reflexivity.
+Qed.
+
+Lemma step_inv s e : Inv s -> Inv (snd (stp s e)).
+Proof.
+  intro I. destruct (res_true_dec (fst (stp s e))) as [A|NA]; [|rewrite (step_refused_same s e NA); exact I].
+  destruct (ev_op e) as [c a|c a k|c a r fns k|c a r ps k|c f t r p l k|c i d r k|c cid cfn k] eqn:E.
+  - rewrite (proj2 (init_accept valid_id s e c a E) A). apply (inv_same_tokens_deleg s); auto.
+  - rewrite (proj2 (transfer_accept valid_id s e c a k E) A). apply (inv_same_tokens_deleg s); auto.
+  - rewrite (proj2 (funcs_accept valid_id s e c a r fns k E) A). apply (inv_same_tokens_deleg s); auto.
+  - rewrite (proj2 (ids_accept valid_id s e c a r ps k E) A). apply assign_fold_inv. exact I.
+  - unfold step in *. rewrite E in *.
+    destruct (delegate_effect valid_id s (ev_env e) c f t r p l k I A) as [lvl' [exp' [L1 [L2 [L3 [HD EQ]]]]]].
+    rewrite EQ. apply inv_set_deleg; [exact I|].
+    destruct (inv_delegs s c t I) as [ND F]. split; [apply upd_status_nodup; exact ND|].
+    rewrite Forall_forall in *. intros d Hd. apply upd_status_in in Hd. destruct Hd as [Hd|Hd]; [apply F; exact Hd|subst d].
+    unfold d_level, d_expire, d_root, d_role; simpl. auto.
+  - destruct (proj2 (withdraw_accept valid_id s e c i d r k I E) A) as [l1 [x [l2 [EL [ER EQ]]]]].
+    rewrite EQ. apply inv_set_deleg; [exact I|].
+    destruct (inv_delegs s c d I) as [ND F]. rewrite EL in ND, F. split.
+    + rewrite map_app in *. simpl in ND. apply nodup_removed in ND. exact ND.
+    + apply Forall_app in F. destruct F as [F1 F2]. inversion F2; subst. apply Forall_app. split; assumption.
+  - unfold step. rewrite E. exact I.
+Qed.
+
+Lemma run_from_inv h s : Inv s -> Inv (run_from valid_id s h).
+Proof. revert s; induction h as [|e h IH]; simpl; intros s I; [exact I|]. apply IH. apply step_inv. exact I. Qed.
+
+Lemma run_inv h : Inv (run valid_id h).
+Proof. apply run_from_inv. apply init_state_inv. Qed.
+
+Lemma run_snoc h e : run valid_id (h ++ [e]) = snd (stp (run valid_id h) e).
+Proof. unfold run, run_from. rewrite fold_left_app. reflexivity. Qed.
+
+End StepInv.
+
+(** * How one event changes each observer *)
+Section StepObs.
+Variable valid_id : bytes -> bool.
+Notation stp := (step valid_id).
+
+(** which stored families an accepted operation can touch *)
+Lemma step_funcs_same s e : Inv s -> (forall c a r fns k, ev_op e <> OAssignFuncs c a r fns k) ->
+  s_funcs (snd (stp s e)) = s_funcs s.
+Proof.
+  intros I H. destruct (res_true_dec (fst (stp s e))) as [A|NA]; [|rewrite (step_refused_same valid_id s e NA); reflexivity].
+  destruct (ev_op e) as [c a|c a k|c a r fns k|c a r ps k|c f t r p l k|c i d r k|c cid cfn k] eqn:E.
+  - rewrite (proj2 (init_accept valid_id s e c a E) A). reflexivity.
+  - rewrite (proj2 (transfer_accept valid_id s e c a k E) A). reflexivity.
+  - exfalso. apply (H c a r fns k). reflexivity.
+  - rewrite (proj2 (ids_accept valid_id s e c a r ps k E) A). apply assign_fold_funcs.
+  - unfold step in *. rewrite E in *.
+    destruct (delegate_effect valid_id s (ev_env e) c f t r p l k I A) as [lvl' [exp' [_ [_ [_ [_ EQ]]]]]]. rewrite EQ. reflexivity.
+  - destruct (proj2 (withdraw_accept valid_id s e c i d r k I E) A) as [l1 [x [l2 [_ [_ EQ]]]]]. rewrite EQ. reflexivity.
+  - unfold step. rewrite E. reflexivity.
+Qed.
+
+Lemma step_tokens_same s e : Inv s -> (forall c a r ps k, ev_op e <> OAssignIds c a r ps k) ->
+  s_tokens (snd (stp s e)) = s_tokens s.
+Proof.
+  intros I H. destruct (res_true_dec (fst (stp s e))) as [A|NA]; [|rewrite (step_refused_same valid_id s e NA); reflexivity].
+  destruct (ev_op e) as [c a|c a k|c a r fns k|c a r ps k|c f t r p l k|c i d r k|c cid cfn k] eqn:E.
+  - rewrite (proj2 (init_accept valid_id s e c a E) A). reflexivity.
+  - rewrite (proj2 (transfer_accept valid_id s e c a k E) A). reflexivity.
+  - rewrite (proj2 (funcs_accept valid_id s e c a r fns k E) A). reflexivity.
+  - exfalso. apply (H c a r ps k). reflexivity.
+  - unfold step in *. rewrite E in *.
+    destruct (delegate_effect valid_id s (ev_env e) c f t r p l k I A) as [lvl' [exp' [_ [_ [_ [_ EQ]]]]]]. rewrite EQ. reflexivity.
+  - destruct (proj2 (withdraw_accept valid_id s e c i d r k I E) A) as [l1 [x [l2 [_ [_ EQ]]]]]. rewrite EQ. reflexivity.
+  - unfold step. rewrite E. reflexivity.
+Qed.
+
+Lemma step_deleg_same s e : Inv s ->
+  (forall c f t r p l k, ev_op e <> ODelegate c f t r p l k) -> (forall c i d r k, ev_op e <> OWithdraw c i d r k) ->
+  s_deleg (snd (stp s e)) = s_deleg s.
+Proof.
+  intros I H1 H2. destruct (res_true_dec (fst (stp s e))) as [A|NA]; [|rewrite (step_refused_same valid_id s e NA); reflexivity].
+  destruct (ev_op e) as [c a|c a k|c a r fns k|c a r ps k|c f t r p l k|c i d r k|c cid cfn k] eqn:E.
+  - rewrite (proj2 (init_accept valid_id s e c a E) A). reflexivity.
+  - rewrite (proj2 (transfer_accept valid_id s e c a k E) A). reflexivity.
+  - rewrite (proj2 (funcs_accept valid_id s e c a r fns k E) A). reflexivity.
+  - rewrite (proj2 (ids_accept valid_id s e c a r ps k E) A). apply assign_fold_deleg.
+  - exfalso. apply (H1 c f t r p l k). reflexivity.
+  - exfalso. apply (H2 c i d r k). reflexivity.
+  - unfold step. rewrite E. reflexivity.
+Qed.
+
+Lemma step_admin_same s e : Inv s ->
+  (forall c a, ev_op e <> OInit c a) -> (forall c a k, ev_op e <> OTransfer c a k) ->
+  s_admin (snd (stp s e)) = s_admin s.
+Proof.
+  intros I H1 H2. destruct (res_true_dec (fst (stp s e))) as [A|NA]; [|rewrite (step_refused_same valid_id s e NA); reflexivity].
+  destruct (ev_op e) as [c a|c a k|c a r fns k|c a r ps k|c f t r p l k|c i d r k|c cid cfn k] eqn:E.
+  - exfalso. apply (H1 c a). reflexivity.
+  - exfalso. apply (H2 c a k). reflexivity.
+  - rewrite (proj2 (funcs_accept valid_id s e c a r fns k E) A). reflexivity.
+  - rewrite (proj2 (ids_accept valid_id s e c a r ps k E) A). apply assign_fold_admin.
+  - unfold step in *. rewrite E in *.
+    destruct (delegate_effect valid_id s (ev_env e) c f t r p l k I A) as [lvl' [exp' [_ [_ [_ [_ EQ]]]]]]. rewrite EQ. reflexivity.
+  - destruct (proj2 (withdraw_accept valid_id s e c i d r k I E) A) as [l1 [x [l2 [_ [_ EQ]]]]]. rewrite EQ. reflexivity.
+  - unfold step. rewrite E. reflexivity.
+Qed.
+
+(** function assignment *)
+Lemma fn_assigned_nonempty s c r f : fn_assigned s c r f = true -> f <> [].
+Proof.
+  intro H. apply fn_assigned_spec in H. destruct H as [fs [E H]]. unfold get_role_func in E.
+  destruct (s_funcs s (c, r)); simpl in E; [|discriminate]. inversion E; subst. apply In_dedup_sort in H. tauto.
+Qed.
+
+Lemma step_fn s e c r f : Inv s ->
+  (fn_assigned (snd (stp s e)) c r f = true <-> fn_assigned s c r f = true \/ ev_assign_fn s e c r f).
+Proof.
+  intro I.
+  destruct (ev_op e) as [c0 a0|c0 a0 k0|c0 a0 r0 fns0 k0|c0 a0 r0 ps0 k0|c0 f0 t0 r0 p0 l0 k0|c0 i0 d0 r0 k0|c0 cid cfn k0] eqn:E.
+  3: {
+    destruct (funcs_accept valid_id s e c0 a0 r0 fns0 k0 E) as [ACC EFF].
+    destruct (res_true_dec (fst (stp s e))) as [A|NA].
+    - rewrite (EFF A). apply ACC in A. destruct A as [RN AP].
+      destruct (key_eq_dec (c, r) (c0, r0)) as [K|NK].
+      + inversion K; subst c0 r0. unfold fn_assigned at 1, get_role_func. simpl. rewrite fput_same. simpl.
+        rewrite contains_func_spec, In_dedup_sort, In_dedup_sort, in_app_iff.
+        assert (OLD : In f (opt_list (get_role_func s c r)) <-> fn_assigned s c r f = true).
+        { rewrite fn_assigned_spec. destruct (get_role_func s c r) as [fs|]; simpl.
+          - split; [intro H; exists fs; auto|intros [fs' [X H]]; inversion X; subst; exact H].
+          - split; [intros []|intros [fs' [X _]]; discriminate]. }
+        rewrite OLD. split.
+        * intros [[[H|H] N] _]; [left; exact H|right]. exists a0, fns0, k0. exact (conj E (conj RN (conj AP (conj H N)))).
+        * intros [H|[a [fns [k [E' [_ [_ [H N]]]]]]]].
+          -- pose proof (fn_assigned_nonempty s c r f H). tauto.
+          -- rewrite E in E'. inversion E'; subst. tauto.
+      + rewrite (fn_assigned_ext s _ c r f); [|simpl; apply fput_other; exact NK].
+        split; [auto|intros [H|[a [fns [k [E' _]]]]]; [exact H|]]. rewrite E in E'. inversion E'; subst. contradiction.
+    - rewrite (step_refused_same valid_id s e NA). split; [auto|intros [H|[a [fns [k [E' [RN [AP _]]]]]]]; [exact H|]].
+      rewrite E in E'. inversion E'; subst. exfalso. apply NA. apply ACC. auto. }
+  all: rewrite (fn_assigned_ext s _ c r f) by (rewrite step_funcs_same; [reflexivity|exact I|intros; rewrite E; discriminate]).
+  all: split; [auto|intros [H|[a [fns [k [E' _]]]]]; [exact H|rewrite E in E'; discriminate]].
+Qed.
+
+
+(** role assignment *)
+Lemma step_direct s e c id r : Inv s ->
+  (holds_direct (snd (stp s e)) c id r = true <-> holds_direct s c id r = true \/ ev_assign_id valid_id s e c id r).
+Proof.
+  intro I.
+  destruct (ev_op e) as [c0 a0|c0 a0 k0|c0 a0 r0 fns0 k0|c0 a0 r0 ps0 k0|c0 f0 t0 r0 p0 l0 k0|c0 i0 d0 r0 k0|c0 cid cfn k0] eqn:E.
+  4: {
+    destruct (ids_accept valid_id s e c0 a0 r0 ps0 k0 E) as [ACC EFF].
+    destruct (res_true_dec (fst (stp s e))) as [A|NA].
+    - rewrite (EFF A). apply ACC in A. destruct A as [RN [AV AP]].
+      rewrite (assign_fold_direct (ev_now e) c0 r0 ps0 s c id r I). split.
+      + intros [H|[X1 [X2 [X3 X4]]]]; [left; exact H|right]. subst c0 r0. split; [|exact X4].
+        exists a0, ps0, k0. exact (conj E (conj RN (conj AV (conj AP X3)))).
+      + intros [H|[(a & ps & k & E' & _ & _ & _ & X3) X4]]; [left; exact H|right].
+        rewrite E in E'. inversion E'; subst. auto.
+    - rewrite (step_refused_same valid_id s e NA). split; [auto|intros [H|[(a & ps & k & E' & RN & AV & AP & _) _]]; [exact H|]].
+      rewrite E in E'. inversion E'; subst. exfalso. apply NA. apply ACC. auto. }
+  all: rewrite (holds_direct_ext s _ c id r) by (rewrite step_tokens_same; [reflexivity|exact I|intros; rewrite E; discriminate]).
+  all: split; [auto|intros [H|[(a & ps & k & E' & _) _]]; [exact H|rewrite E in E'; discriminate]].
+Qed.
+
+Lemma step_direct_mono s e c id r : Inv s -> holds_direct s c id r = true -> holds_direct (snd (stp s e)) c id r = true.
+Proof. intros I H. apply step_direct; auto. Qed.
+
+(** admin *)
+Lemma admin_of_set s c0 a0 c : admin_of (set_admin s c0 a0) c = if bytes_eqb c c0 then Some a0 else admin_of s c.
+Proof.
+  unfold admin_of, get_admin, set_admin; simpl. unfold fput, key_eqb; simpl. rewrite andb_true_r. reflexivity.
+Qed.
+
+Lemma step_admin s e c a : Inv s ->
+  (admin_of (snd (stp s e)) c = Some a <->
+   ev_sets_admin valid_id s e c a \/ (admin_of s c = Some a /\ ~ exists a', ev_sets_admin valid_id s e c a')).
+Proof.
+  intro I.
+  destruct (ev_op e) as [c0 a0|c0 a0 k0|c0 a0 r0 fns0 k0|c0 a0 r0 ps0 k0|c0 f0 t0 r0 p0 l0 k0|c0 i0 d0 r0 k0|c0 cid cfn k0] eqn:E.
+  1: {
+    destruct (init_accept valid_id s e c0 a0 E) as [ACC EFF].
+    destruct (res_true_dec (fst (stp s e))) as [A|NA].
+    - rewrite (EFF A), admin_of_set. apply ACC in A. destruct A as [V AN].
+      destruct (bytes_eqb c c0) eqn:B.
+      + apply bytes_eqb_eq in B. subst c0. split.
+        * intro H. inversion H; subst a0. left. split; [exact V|left; auto].
+        * intros [[_ [[E' _]|[k [a1 [E' _]]]]]|[H _]].
+          -- rewrite E in E'. inversion E'; subst. reflexivity.
+          -- rewrite E in E'. discriminate.
+          -- congruence.
+      + apply bytes_eqb_neq in B. split.
+        * intro H. right. split; [exact H|]. intros [a' [_ [[E' _]|[k [a1 [E' _]]]]]]; rewrite E in E'; [inversion E'; subst; contradiction|discriminate].
+        * intros [[_ [[E' _]|[k [a1 [E' _]]]]]|[H _]]; [rewrite E in E'; inversion E'; subst; contradiction|rewrite E in E'; discriminate|exact H].
+    - rewrite (step_refused_same valid_id s e NA). split.
+      + intro H. right. split; [exact H|]. intros [a' [V [[E' AN]|[k [a1 [E' _]]]]]]; rewrite E in E'; [|discriminate].
+        inversion E'; subst. apply NA. apply ACC. auto.
+      + intros [[V [[E' AN]|[k [a1 [E' _]]]]]|[H _]]; [|rewrite E in E'; discriminate|exact H].
+        rewrite E in E'. inversion E'; subst. exfalso. apply NA. apply ACC. auto. }
+  1: {
+    destruct (transfer_accept valid_id s e c0 a0 k0 E) as [ACC EFF].
+    destruct (res_true_dec (fst (stp s e))) as [A|NA].
+    - rewrite (EFF A), admin_of_set. apply ACC in A. destruct A as [V [a1 [A1 S1]]].
+      destruct (bytes_eqb c c0) eqn:B.
+      + apply bytes_eqb_eq in B. subst c0. split.
+        * intro H. inversion H; subst a0. left. split; [exact V|right; exists k0, a1; auto].
+        * intros [[_ [[E' _]|[k [a2 [E' _]]]]]|[_ H]].
+          -- rewrite E in E'. discriminate.
+          -- rewrite E in E'. inversion E'; subst. reflexivity.
+          -- exfalso. apply H. exists a0. split; [exact V|right; exists k0, a1; auto].
+      + apply bytes_eqb_neq in B. split.
+        * intro H. right. split; [exact H|]. intros [a' [_ [[E' _]|[k [a2 [E' _]]]]]]; rewrite E in E'; [discriminate|inversion E'; subst; contradiction].
+        * intros [[_ [[E' _]|[k [a2 [E' _]]]]]|[H _]]; [rewrite E in E'; discriminate|rewrite E in E'; inversion E'; subst; contradiction|exact H].
+    - rewrite (step_refused_same valid_id s e NA). split.
+      + intro H. right. split; [exact H|]. intros [a' [V [[E' AN]|[k [a1 [E' [A1 S1]]]]]]]; rewrite E in E'; [discriminate|].
+        inversion E'; subst. apply NA. apply ACC. eauto.
+      + intros [[V [[E' AN]|[k [a1 [E' [A1 S1]]]]]]|[H _]]; [rewrite E in E'; discriminate| |exact H].
+        rewrite E in E'. inversion E'; subst. exfalso. apply NA. apply ACC. eauto. }
+  all: assert (SA : admin_of (snd (stp s e)) c = admin_of s c)
+    by (unfold admin_of, get_admin; rewrite step_admin_same; [reflexivity|exact I|intros; rewrite E; discriminate|intros; rewrite E; discriminate]).
+  all: rewrite SA; split;
+    [intro H; right; split; [exact H|]; intros [a' [_ [[E' _]|[k [a1 [E' _]]]]]]; rewrite E in E'; discriminate
+    |intros [[_ [[E' _]|[k [a1 [E' _]]]]]|[H _]]; [rewrite E in E'; discriminate|rewrite E in E'; discriminate|exact H]].
+Qed.
+End StepObs.
